@@ -183,7 +183,7 @@ theorem C01_system_each_component_once (fuel n : Nat)
     (r : Renderer α (SysSnd α × List Nat) (SysFx α n × List Nat) (SysSpatial α) (SysEnv α)) (hr : r.Clean)
     (hs : Trk.SteadyList r.mixer.subTracks) (hibs : 0 < r.ibs) (frames ch : Nat) :
     Mixer.logs Prod.snd Prod.snd
-        (Renderer.processLoop (sysComps fuel n).logged (SysEnv.envOps fuel) ch frames r frames).1.mixer
+        (Renderer.processLoop (sysComps fuel n).logged SysEnv.envOps ch frames r frames).1.mixer
         = (Mixer.logs Prod.snd Prod.snd r.mixer).map (· ++ chunkSizes frames r.ibs frames)
       ∧ chunkSizes frames r.ibs frames
           = List.replicate (frames / r.ibs) r.ibs ++ (if frames % r.ibs = 0 then [] else [frames % r.ibs])
@@ -195,7 +195,7 @@ theorem C01_system_each_component_once (fuel n : Nat)
       ∧ (∀ (e : SysFx α n × List Nat) buf dt info,
             (((sysComps fuel n).logged.fxStep e buf dt info).1.1, ((sysComps fuel n).logged.fxStep e buf dt info).2)
               = (sysComps fuel n).fxStep e.1 buf dt info) := by
-  obtain ⟨h1, h2, h3, h4⟩ := C02_each_frame_once (sysComps fuel n).logged (SysEnv.envOps fuel)
+  obtain ⟨h1, h2, h3, h4⟩ := C02_each_frame_once (sysComps fuel n).logged SysEnv.envOps
     ((sysComps fuel n).logged_lenPres (sysComps_lenPres fuel n)) Prod.snd Prod.snd
     ((sysComps fuel n).logged_logging) r hr hs hibs frames ch
   exact ⟨h1, h2, h3, h4, fun _ _ _ _ => rfl, fun _ _ _ _ => rfl⟩
